@@ -1,8 +1,8 @@
 package main
 
-// C13, slow reader: 40 pipelined queries whose answers are 12-28 kB each on one connection whose
-// client reads nothing for a while (8 kB receive buffer): responses complete while earlier ones
-// are still stuck in the listener's Write. Then everything is read: every response is one
+// C13, slow reader: 60 pipelined queries whose answers are 12-28 kB each on one connection whose
+// client reads nothing for 1.5 s and then drains slowly (16 kB receive buffer): responses complete
+// while earlier ones are still stuck in the listener's Write, in three waves. Then everything is read: every response is one
 // contiguous, decodable frame carrying the id and the question of one of the queries, each query is
 // answered once, no stray octets.
 
@@ -13,14 +13,27 @@ import (
 	"io"
 	"net"
 	"strings"
+	"sync"
 	"time"
 
 	"github.com/miekg/dns"
 )
 
 func c13SlowReader(c *Ctx, b *Bed, listeners []string) {
+	var wg sync.WaitGroup
 	for _, listener := range listeners {
-		for rep := 0; rep < c.N(2, 8); rep++ {
+		wg.Add(1)
+		go func(listener string) {
+			defer wg.Done()
+			c13SlowReaderOn(c, b, listener)
+		}(listener)
+	}
+	wg.Wait()
+}
+
+func c13SlowReaderOn(c *Ctx, b *Bed, listener string) {
+	{
+		for rep := 0; rep < c.N(1, 5); rep++ {
 			if c.Seen("slow-reader:bad-frame:"+listener) || c.Seen("slow-reader:missing-response:"+listener) {
 				break
 			}
@@ -29,7 +42,7 @@ func c13SlowReader(c *Ctx, b *Bed, listeners []string) {
 				c.Inconclusive("slow reader: dial: " + err.Error())
 				continue
 			}
-			raw.(*net.TCPConn).SetReadBuffer(8 << 10)
+			raw.(*net.TCPConn).SetReadBuffer(16 << 10) // a small window: the listener's writes block, the client drains slowly
 			var conn net.Conn = raw
 			if listener == "tls" {
 				tc := tls.Client(raw, b.ProxyTLS.Clone())
@@ -41,14 +54,23 @@ func c13SlowReader(c *Ctx, b *Bed, listeners []string) {
 				}
 				conn = tc
 			}
-			const nq = 40
+			const nq = 60
+			tStart := time.Now()
 			names := map[uint16]string{}
 			var out []byte
 			for i := 0; i < nq; i++ {
 				id := uint16(500 + i)
-				// half of the answers are ready at once, the other half 400-700 ms later - while the first
-				// ones are being written to a client that is not reading
-				name := fmt.Sprintf("ok-n1-big%d-d%d-sr%dr%d%s.pipe.test.", 12000+400*i, (i%2)*(400+8*i), i, rep, listener)
+				// a third of the answers are ready at once, a third 400-700 ms later - while the first ones
+				// are being written to a client that is not reading - and a third 2.2-3.2 s later, while the
+				// client pauses again after having taken 64 kB
+				delay := 0
+				switch i % 3 {
+				case 1:
+					delay = 400 + 5*i
+				case 2:
+					delay = 2200 + 17*i
+				}
+				name := fmt.Sprintf("ok-n1-big%d-d%d-sr%dr%d%s.pipe.test.", 12000+270*i, delay, i, rep, listener)
 				names[id] = name
 				q := mkQuery(id, name, dns.TypeTXT, dns.ClassINET, true)
 				out = append(out, byte(len(q)>>8), byte(len(q)))
@@ -61,17 +83,21 @@ func c13SlowReader(c *Ctx, b *Bed, listeners []string) {
 				continue
 			}
 			time.Sleep(1500 * time.Millisecond) // nothing is read meanwhile
-			raw.SetDeadline(time.Now().Add(12 * time.Second))
+			raw.SetDeadline(time.Now().Add(30 * time.Second))
 			seen := map[uint16]int{}
 			bad := ""
 			frames := 0
+			// the client takes 64 kB (whoever was stuck in a write gets on, and whatever has been queued
+			// behind it starts to move), pauses until the third wave of responses has completed, and
+			// then reads everything
+			rd := &c13Paused{r: conn, after: 64 << 10, resume: tStart.Add(3600 * time.Millisecond), grow: func() { raw.(*net.TCPConn).SetReadBuffer(4 << 20) }}
 			for frames < nq && bad == "" {
 				var hdr [2]byte
-				if _, err := io.ReadFull(conn, hdr[:]); err != nil {
+				if _, err := io.ReadFull(rd, hdr[:]); err != nil {
 					break
 				}
 				body := make([]byte, binary.BigEndian.Uint16(hdr[:]))
-				if _, err := io.ReadFull(conn, body); err != nil {
+				if _, err := io.ReadFull(rd, body); err != nil {
 					bad = fmt.Sprintf("frame %d announces %d octets, the stream ends before they arrive (%v)", frames, len(body), err)
 					break
 				}
@@ -92,13 +118,14 @@ func c13SlowReader(c *Ctx, b *Bed, listeners []string) {
 				}
 			}
 			conn.Close()
+			c.Ev.Count("slow_reader_ms_"+listener, time.Since(tStart).Milliseconds())
 			c.Ev.Eval(nq)
 			cs := map[string]any{"fn": "c13SlowReader", "listener": listener, "queries": nq, "frames_read": frames}
 			switch {
 			case bad != "":
-				c.Violation("slow-reader:bad-frame:"+listener, fmt.Sprintf("%s: 40 pipelined queries with 12-28 kB answers, client not reading for 1.5 s: %s", listener, bad), cs)
+				c.Violation("slow-reader:bad-frame:"+listener, fmt.Sprintf("%s: 60 pipelined queries with 12-28 kB answers (ready at once / after 0.5 s / after 2.2-3.2 s), client reading nothing for 1.5 s, then 64 kB, then nothing until 3.6 s: %s", listener, bad), cs)
 			case len(seen) < nq:
-				c.Violation("slow-reader:missing-response:"+listener, fmt.Sprintf("%s: 40 pipelined queries with 12-28 kB answers, client not reading for 1.5 s: only %d distinct queries were answered within 12 s (%d frames)", listener, len(seen), frames), cs)
+				c.Violation("slow-reader:missing-response:"+listener, fmt.Sprintf("%s: 60 pipelined queries with 12-28 kB answers, client not reading for 1.5 s: only %d distinct queries were answered within 30 s (%d frames)", listener, len(seen), frames), cs)
 			default:
 				dup := 0
 				for _, n := range seen {
@@ -115,4 +142,28 @@ func c13SlowReader(c *Ctx, b *Bed, listeners []string) {
 			}
 		}
 	}
+}
+
+type c13Paused struct {
+	grow   func()
+	r      io.Reader
+	n      int
+	after  int
+	resume time.Time
+}
+
+func (t *c13Paused) Read(p []byte) (int, error) {
+	if t.n >= t.after {
+		if d := time.Until(t.resume); d > 0 {
+			time.Sleep(d)
+			if t.grow != nil {
+				t.grow() // from now on the client reads as fast as it can
+			}
+		}
+	} else if len(p) > t.after-t.n {
+		p = p[:t.after-t.n]
+	}
+	n, err := t.r.Read(p)
+	t.n += n
+	return n, err
 }
